@@ -16,7 +16,8 @@ Fixpoint drop_space (t : text) : text :=
   end.
 
 (* strings.TrimSpace, on the decoded text *)
-Definition trim_space (t : text) : text := rev (drop_space (rev (drop_space t))).
+(* rev_append _ [] is List.rev in linear time (List.rev_alt) *)
+Definition trim_space (t : text) : text := rev_append (drop_space (rev_append (drop_space t) [])) [].
 
 (* lexer + parser on a text: Some q iff the text is one complete query *)
 Definition parse_text (t : text) : option query :=
